@@ -1,6 +1,6 @@
 """C10 — EnumTable is a total map from enabled variants to values."""
 import itertools
-from vlib.defs import Item, Variant, Field, DISABLED, ser, msg, props, tos
+from vlib.defs import Item, Variant, Field, DISABLED, ser, msg, props, tos, raw, doc
 from vlib.run import Corpus
 from vlib import structs as T
 from vlib import gen as G
@@ -31,7 +31,8 @@ def build_corpus(tier, rng):
         vs = [Variant(NAMES[i] , "unit", [], [DISABLED] if i in (1, 4) else []) for i in range(n)]
         items.append(("wide", Item("E", vs, vis=("pubcrate" if n == 7 else "pub"))))
     # `disabled` after / before other items of the same #[strum(..)] attribute, or in an attribute of its own
-    noise = [[ser("teal"), DISABLED], [DISABLED, ser("teal")], [props([("k", ("s", "v"))]), DISABLED], [msg("m"), DISABLED, tos("t")], [DISABLED]]
+    noise = [[ser("teal"), DISABLED], [DISABLED, ser("teal")], [props([("k", ("s", "v"))]), DISABLED], [msg("m"), DISABLED, tos("t")], [DISABLED],
+             [raw("doc(hidden)"), DISABLED], [raw('doc(alias = "x")'), doc(" docs"), DISABLED], [raw("allow(dead_code)"), DISABLED]]
     for j, ms in enumerate(noise):
         for split in (None, [1]):
             vs = [Variant("Red", "unit"), Variant("Teal", "unit", [], list(ms), groups=split), Variant("Blue", "unit", [], [ser("b")]),
